@@ -1,6 +1,6 @@
 (* Proofs/PingBulk.v — the compressed event [BulkFail n] is n complete calls whose send fails
-   (Begin j; Sent j false), as far as the table, the next identifier, the counter and every other
-   call are concerned. *)
+   (Begin j; Sent j false), as far as the table, the next identifier and every other call are
+   concerned: each call takes the next free identifier and gives it back. *)
 From PV Require Import Base.Prelude Model.Ping Model.PingTrace Proofs.Ping Proofs.PingIff.
 Open Scope N_scope.
 
@@ -11,88 +11,49 @@ Fixpoint fails (j0 k : nat) : list event :=
   | S k' => Begin j0 :: Sent j0 false :: fails (S j0) k'
   end.
 
-Lemma tdel_idem t i : tdel (tdel t i) i = tdel t i.
+Lemma tdel_tset_free t i v : tget t i = None -> tdel (tset t i v) i = t.
 Proof.
-  unfold tdel. induction t as [|[k v] r IH]; cbn [filter fst]; [reflexivity|].
-  destruct (N.eqb_spec k i); cbn [negb filter fst]; [exact IH|].
-  destruct (N.eqb_spec k i); [lia|]. cbn [negb]. rewrite IH. reflexivity.
+  intros H. unfold tset. unfold tdel at 1. cbn [filter fst]. rewrite N.eqb_refl. cbn [negb].
+  fold (tdel (tdel t i) i). rewrite (tdel_absent t i H). apply tdel_absent. exact H.
 Qed.
-
-Lemma tdel_tset_same t i v : tdel (tset t i v) i = tdel t i.
-Proof.
-  unfold tset. unfold tdel at 1. cbn [filter fst]. rewrite N.eqb_refl. cbn [negb].
-  fold (tdel (tdel t i) i). apply tdel_idem.
-Qed.
-
-Lemma range_succ x i k : x < 65536 -> i < 65536 -> k < 65536 ->
-  negb (x =? i) && negb (in_range x (u16 (i + 1)) k) = negb (in_range x i (k + 1)).
-Proof.
-  intros Hx Hi Hk. unfold in_range, u16.
-  destruct (N.eqb_spec x i) as [->|Hne]; cbn [negb andb].
-  - replace (i + 65536 - i) with 65536 by lia. change (65536 mod 65536) with 0.
-    destruct (N.ltb_spec 0 (k + 1)); [reflexivity|lia].
-  - f_equal.
-    assert (Hd : (x + 65536 - (i + 1) mod 65536) mod 65536 + 1 = (x + 65536 - i) mod 65536).
-    { clear -Hx Hi Hne. lia. }
-    destruct (N.ltb_spec ((x + 65536 - (i + 1) mod 65536) mod 65536) k);
-      destruct (N.ltb_spec ((x + 65536 - i) mod 65536) (k + 1)); try reflexivity; lia.
-Qed.
-
-Lemma tdel_range_succ t i k : (forall x, In x (keys t) -> x < 65536) -> i < 65536 -> k < 65536 ->
-  tdel_range (tdel t i) (u16 (i + 1)) k = tdel_range t i (k + 1).
-Proof.
-  intros Hk Hi Hkk. unfold tdel_range, tdel, keys in *.
-  induction t as [|[x v] r IH]; [reflexivity|].
-  assert (Hx : x < 65536) by (apply Hk; left; reflexivity).
-  assert (IH' := IH (fun y Hy => Hk y (or_intror Hy))).
-  pose proof (range_succ x i k Hx Hi Hkk) as E.
-  cbn [filter fst].
-  destruct (x =? i) eqn:Exi; cbn [negb andb] in E |- *.
-  - rewrite <- E. cbn [filter fst]. exact IH'.
-  - cbn [filter fst]. rewrite <- E.
-    destruct (in_range x (u16 (i + 1)) k); cbn [negb]; rewrite IH'; reflexivity.
-Qed.
-
-Lemma tdel_range_zero t a : tdel_range t a 0 = t.
-Proof.
-  unfold tdel_range. induction t as [|e r IH]; [reflexivity|].
-  cbn [filter].
-  match goal with |- context [in_range ?x a 0] =>
-    assert (E : in_range x a 0 = false) by (unfold in_range; apply N.ltb_ge; lia); rewrite E end.
-  cbn [negb]. rewrite IH. reflexivity.
-Qed.
-
-Lemma keys_tdel_sub t i x : In x (keys (tdel t i)) -> In x (keys t).
-Proof. intros H. apply keys_tdel_in in H. tauto. Qed.
 
 Theorem fails_bulk k : forall j0 s,
-  next s < 65536 -> N.of_nat k <= 65536 -> (forall x, In x (keys (tbl s)) -> x < 65536) ->
+  Inv s -> table_full (tbl s) = false ->
   (forall p, (j0 <= p)%nat -> pget (pings s) p = None) ->
   exists s', run true s (fails j0 k) = Ok s' /\
-    tbl s' = tdel_range (tbl s) (next s) (N.of_nat k) /\
-    next s' = u16 (next s + N.of_nat k) /\ cnt s' = cnt s + N.of_nat k /\
+    tbl s' = tbl s /\
+    next s' = N.iter (N.of_nat k) (bump (tbl s)) (next s) /\
     (forall p, (p < j0)%nat -> pget (pings s') p = pget (pings s) p) /\
     (forall p, (j0 + k <= p)%nat -> pget (pings s') p = None).
 Proof.
-  induction k as [|k IH]; intros j0 s Hn Hk Hkeys Hfree.
-  - exists s. cbn [fails run]. rewrite tdel_range_zero. unfold u16. cbn [N.of_nat].
-    rewrite !N.add_0_r, N.mod_small by exact Hn. rewrite Nat.add_0_r. repeat split; auto.
-  - cbn [fails run step]. rewrite (Hfree j0) by lia. cbv zeta. cbn [pings].
-    rewrite pget_pset, Nat.eqb_refl. cbn [p_phase p_id p_recv p_closed p_fired p_seq tbl next cnt pings].
-    rewrite tdel_tset_same.
-    set (s1 := mkState _ _ _ _).
-    destruct (IH (S j0) s1) as (s' & Hr & Ht & Hnx & Hc & Hlow & Hhigh).
-    + unfold s1. cbn [next]. unfold u16. lia.
-    + lia.
-    + unfold s1. cbn [tbl]. intros x Hx. apply Hkeys. eapply keys_tdel_sub; eauto.
-    + intros p Hp. unfold s1. cbn [pings]. rewrite !pget_pset.
+  induction k as [|k IH]; intros j0 s HI Hfull Hfree.
+  - exists s. cbn [fails run N.of_nat N.iter]. rewrite Nat.add_0_r. repeat split; auto.
+  - destruct (alloc (tbl s) (next s)) as [i|] eqn:Ea.
+    2:{ exfalso. eapply first_free_total; eauto; [apply HI|apply HI]. }
+    destruct (first_free_spec _ _ _ _ (inv_next _ HI) Ea) as [Hifree Hilt].
+    destruct (step true s (Begin j0)) as [s1| | |] eqn:E1;
+      try (cbn [step] in E1; rewrite (Hfree j0), Hfull, Ea in E1 by lia; discriminate).
+    pose proof (Inv_step _ _ _ _ HI E1) as HI1. pose proof E1 as E1'.
+    cbn [step] in E1. rewrite (Hfree j0), Hfull, Ea in E1 by lia. cbv zeta in E1. inversion E1; subst s1; clear E1.
+    match type of HI1 with Inv ?st => set (s1 := st) in * end.
+    destruct (step true s1 (Sent j0 false)) as [s2| | |] eqn:E2;
+      try (cbn [step] in E2; unfold s1 in E2; cbn [pings] in E2; rewrite pget_pset, Nat.eqb_refl in E2;
+           cbn [p_phase] in E2; discriminate).
+    pose proof (Inv_step _ _ _ _ HI1 E2) as HI2. pose proof E2 as E2'.
+    cbn [step] in E2. unfold s1 in E2. cbn [pings] in E2. rewrite pget_pset, Nat.eqb_refl in E2.
+    cbn [p_phase p_id p_recv p_closed p_fired p_seq tbl next cnt pings] in E2.
+    unfold tdel_own in E2. rewrite tget_tset, N.eqb_refl, Nat.eqb_refl, tdel_tset_free in E2 by exact Hifree.
+    inversion E2; subst s2; clear E2.
+    match type of HI2 with Inv ?st => set (s2 := st) in * end.
+    destruct (IH (S j0) s2 HI2) as (s' & Hr & Ht & Hnx & Hlow & Hhigh).
+    + exact Hfull.
+    + intros p Hp. unfold s2. cbn [pings]. rewrite !pget_pset.
       destruct (Nat.eqb_spec p j0); [lia|]. apply Hfree. lia.
-    + exists s'. split; [exact Hr|]. unfold s1 in *. cbn [tbl next cnt pings] in *.
-      split; [|split; [|split; [|split]]].
-      * rewrite Ht. replace (N.of_nat (S k)) with (N.of_nat k + 1) by lia.
-        apply tdel_range_succ; auto. lia.
-      * rewrite Hnx. unfold u16. generalize (next s) Hn. intros a Ha. lia.
-      * lia.
+    + exists s'. cbn [fails run]. rewrite E1'. cbn [run]. rewrite E2'.
+      split; [exact Hr|]. unfold s2 in Ht, Hnx, Hlow, Hhigh. cbn [tbl next pings] in Ht, Hnx, Hlow, Hhigh.
+      split; [exact Ht|]. split; [|split].
+      * rewrite Hnx. replace (N.of_nat (S k)) with (N.succ (N.of_nat k)) by lia.
+        rewrite N.iter_succ_r. f_equal. unfold bump. rewrite Hfull, Ea. reflexivity.
       * intros p Hp. rewrite Hlow by lia. rewrite !pget_pset.
         destruct (Nat.eqb_spec p j0); [lia|reflexivity].
       * intros p Hp. apply Hhigh. lia.
@@ -100,15 +61,15 @@ Qed.
 
 (* the same as one BulkFail event *)
 Corollary bulk_sound k j0 s sb :
-  next s < 65536 -> N.of_nat k <= 65536 -> (forall x, In x (keys (tbl s)) -> x < 65536) ->
+  Inv s -> table_full (tbl s) = false -> N.of_nat k <= 65536 ->
   (forall p, (j0 <= p)%nat -> pget (pings s) p = None) ->
   step true s (BulkFail (N.of_nat k)) = Ok sb ->
   exists s', run true s (fails j0 k) = Ok s' /\
-    tbl s' = tbl sb /\ next s' = next sb /\ cnt s' = cnt sb /\
+    tbl s' = tbl sb /\ next s' = next sb /\
     (forall p, (p < j0)%nat -> pget (pings s') p = pget (pings sb) p).
 Proof.
-  intros Hn Hk Hkeys Hfree Hb. cbn [step andb] in Hb.
+  intros HI Hfull Hk Hfree Hb. cbn [step andb] in Hb.
   destruct (N.leb_spec (N.of_nat k) 65536); [|lia]. inversion Hb; subst sb; clear Hb. cbn [tbl next cnt pings].
-  destruct (fails_bulk k j0 s Hn Hk Hkeys Hfree) as (s' & Hr & Ht & Hnx & Hc & Hlow & _).
+  destruct (fails_bulk k j0 s HI Hfull Hfree) as (s' & Hr & Ht & Hnx & Hlow & _).
   exists s'. repeat split; auto.
 Qed.
